@@ -377,9 +377,9 @@ pub fn make_projected(v9: bool, sel: Vec<usize>, s6: bool, d6: bool, extra: Vec<
             }
             for (a, b, c, d) in extra {
                 let pool: &[(u16, u16)] = if v9 {
-                    &[(1, 4), (2, 8), (10, 2), (5, 1), (6, 1), (15, 4), (1000, 3), (94, 7), (23, 16), (57, 6), (81, 6), (62, 16), (153, 8)]
+                    &[(1, 4), (2, 8), (10, 2), (5, 1), (6, 1), (15, 4), (1000, 3), (94, 7), (23, 16), (57, 6), (81, 6), (62, 16), (153, 8), (61, 1), (61, 1), (60, 1), (57, 6), (81, 6)]
                 } else {
-                    &[(1, 4), (2, 8), (10, 2), (5, 1), (6, 1), (15, 4), (1000, 3), (82, 7), (23, 16), (57, 6), (81, 6), (62, 16), (153, 8), (82, 65535)]
+                    &[(1, 4), (2, 8), (10, 2), (5, 1), (6, 1), (15, 4), (1000, 3), (82, 7), (23, 16), (57, 6), (81, 6), (62, 16), (153, 8), (82, 65535), (61, 1), (61, 1), (60, 1), (136, 1), (57, 6), (81, 6)]
                 };
                 if !v9 && b >= 200 {
                     // enterprise-specific element; sometimes numbered like a projected one
